@@ -65,8 +65,93 @@ func verifC45New(kind string, f [][]byte) handshakeMessage {
 			signatureAndHash: signatureAndHash{hash: b0(0), signature: b0(1)}, signature: get(2)}
 	case "crt":
 		return &certificateMsg{certificates: f}
+	case "chl":
+		m := &clientHelloMsg{vers: verifC45U16(get(0)), random: get(1), sessionId: get(2), cipherSuites: verifC45U16s(get(3)),
+			compressionMethods: get(4), nextProtoNeg: b0(5) != 0, serverName: string(get(6)), ocspStapling: b0(7) != 0,
+			supportedPoints: get(9), ticketSupported: b0(10) != 0, sessionTicket: get(11),
+			secureRenegotiation: b0(13) != 0, alpnProtocols: verifC45Strings(get(14), 1)}
+		for _, c := range verifC45U16s(get(8)) {
+			m.supportedCurves = append(m.supportedCurves, CurveID(c))
+		}
+		for _, c := range verifC45U16s(get(12)) {
+			m.signatureAndHashes = append(m.signatureAndHashes, signatureAndHash{byte(c >> 8), byte(c)})
+		}
+		return m
+	case "shl":
+		return &serverHelloMsg{vers: verifC45U16(get(0)), random: get(1), sessionId: get(2), cipherSuite: verifC45U16(get(3)),
+			compressionMethod: b0(4), nextProtoNeg: b0(5) != 0, nextProtos: verifC45Strings(get(6), 1), ocspStapling: b0(7) != 0,
+			ticketSupported: b0(8) != 0, secureRenegotiation: b0(9) != 0, alpnProtocol: string(get(10))}
+	case "cr0", "cr1":
+		m := &certificateRequestMsg{hasSignatureAndHash: kind == "cr1", certificateTypes: get(0)}
+		for _, c := range verifC45U16s(get(1)) {
+			m.signatureAndHashes = append(m.signatureAndHashes, signatureAndHash{byte(c >> 8), byte(c)})
+		}
+		for _, ca := range verifC45Strings(get(2), 2) {
+			m.certificateAuthorities = append(m.certificateAuthorities, []byte(ca))
+		}
+		return m
 	}
 	return nil
+}
+
+func verifC45U16(b []byte) uint16 {
+	if len(b) < 2 {
+		return 0
+	}
+	return uint16(b[0])<<8 | uint16(b[1])
+}
+
+func verifC45U16s(b []byte) []uint16 {
+	var out []uint16
+	for i := 0; i+1 < len(b); i += 2 {
+		out = append(out, uint16(b[i])<<8|uint16(b[i+1]))
+	}
+	return out
+}
+
+// verifC45Strings decodes a list of strings each preceded by a w-byte length (the harness' field encoding).
+func verifC45Strings(b []byte, w int) []string {
+	var out []string
+	for len(b) >= w {
+		l := int(b[0])
+		if w == 2 {
+			l = int(b[0])<<8 | int(b[1])
+		}
+		b = b[w:]
+		if l > len(b) {
+			l = len(b)
+		}
+		out = append(out, string(b[:l]))
+		b = b[l:]
+	}
+	return out
+}
+
+func verifC45Flat16(l []uint16) []byte {
+	var out []byte
+	for _, x := range l {
+		out = append(out, byte(x>>8), byte(x))
+	}
+	return out
+}
+
+func verifC45FlatStrings(l []string, w int) []byte {
+	var out []byte
+	for _, s := range l {
+		if w == 2 {
+			out = append(out, byte(len(s)>>8))
+		}
+		out = append(out, byte(len(s)))
+		out = append(out, s...)
+	}
+	return out
+}
+
+func verifC45Bool(b bool) string {
+	if b {
+		return "01"
+	}
+	return "00"
 }
 
 func verifC45Empty(kind string) handshakeMessage {
@@ -126,6 +211,36 @@ func verifC45Render(m handshakeMessage) string {
 		return verifC45Hex(x.signature)
 	case *certificateMsg:
 		return verifC45HexList(x.certificates)
+	case *clientHelloMsg:
+		var curves, sigs []uint16
+		for _, c := range x.supportedCurves {
+			curves = append(curves, uint16(c))
+		}
+		for _, c := range x.signatureAndHashes {
+			sigs = append(sigs, uint16(c.hash)<<8|uint16(c.signature))
+		}
+		return strings.Join([]string{verifC45Hex([]byte{byte(x.vers >> 8), byte(x.vers)}), verifC45Hex(x.random), verifC45Hex(x.sessionId),
+			verifC45Hex(verifC45Flat16(x.cipherSuites)), verifC45Hex(x.compressionMethods), verifC45Bool(x.nextProtoNeg),
+			verifC45Hex([]byte(x.serverName)), verifC45Bool(x.ocspStapling), verifC45Hex(verifC45Flat16(curves)),
+			verifC45Hex(x.supportedPoints), verifC45Bool(x.ticketSupported), verifC45Hex(x.sessionTicket),
+			verifC45Hex(verifC45Flat16(sigs)), verifC45Bool(x.secureRenegotiation),
+			verifC45Hex(verifC45FlatStrings(x.alpnProtocols, 1)), verifC45Bool(x.padding), verifC45Hex(verifC45Flat16(x.extensionIds))}, ":")
+	case *serverHelloMsg:
+		return strings.Join([]string{verifC45Hex([]byte{byte(x.vers >> 8), byte(x.vers)}), verifC45Hex(x.random), verifC45Hex(x.sessionId),
+			verifC45Hex([]byte{byte(x.cipherSuite >> 8), byte(x.cipherSuite)}), verifC45Hex([]byte{x.compressionMethod}),
+			verifC45Bool(x.nextProtoNeg), verifC45Hex(verifC45FlatStrings(x.nextProtos, 1)), verifC45Bool(x.ocspStapling),
+			verifC45Bool(x.ticketSupported), verifC45Bool(x.secureRenegotiation), verifC45Hex([]byte(x.alpnProtocol))}, ":")
+	case *certificateRequestMsg:
+		var sigs []uint16
+		for _, c := range x.signatureAndHashes {
+			sigs = append(sigs, uint16(c.hash)<<8|uint16(c.signature))
+		}
+		var cas []string
+		for _, c := range x.certificateAuthorities {
+			cas = append(cas, string(c))
+		}
+		return strings.Join([]string{verifC45Hex(x.certificateTypes), verifC45Hex(verifC45Flat16(sigs)),
+			verifC45Hex(verifC45FlatStrings(cas, 2))}, ":")
 	}
 	return "?"
 }
